@@ -2339,6 +2339,10 @@ func (t *Terminal) updatePromptOffset() ([]rune, []rune) {
 	_, overflow := t.trimLeft(t.input[:t.cx], maxWidth)
 	minOffset := int(overflow)
 	maxOffset := minOffset + (maxWidth-util.Max(0, maxWidth-t.cx))/2
+	if t.displayWidth(t.input) <= maxWidth {
+		// The whole query fits; there is nothing to scroll
+		maxOffset = minOffset
+	}
 	t.xoffset = util.Constrain(t.xoffset, minOffset, maxOffset)
 	before, _ := t.trimLeft(t.input[t.xoffset:t.cx], maxWidth)
 	beforeLen := t.displayWidth(before)
